@@ -21,8 +21,8 @@ Open Scope N_scope.
 
 (* frame level, every reachable state: whatever a server frame hands to the backend is either an
    independent event without tick or a dependent event carrying the receiver's update tick *)
-Theorem C04_dependent_events_carry_update_tick : forall c n e tick dt ops parts emit e' o,
-  reachable c n e -> syse_step e (ESFrame tick dt ops parts emit) = Ok (e', o) ->
+Theorem C04_dependent_events_carry_update_tick : forall c n e tick dt cleanup ops parts emit e' o,
+  reachable c n e -> syse_step e (ESFrame tick dt cleanup ops parts emit) = Ok (e', o) ->
   forall slot m, In (slot, m) (eo_sent o) ->
   (sm_tick m = None /\ independent (sm_ty m) = true) \/
   (exists cl, find_client (y_server (e_sys e')) slot = Some cl /\
@@ -146,8 +146,8 @@ Definition c04_cfg : cfg := mkCfg PAll AuthNone false 10000.
    the event message overtakes the update message: the client frame delivers nothing and queues it;
    after the update message arrived the next client frame delivers it, with the entity mapped *)
 Definition c04_script_a : list estep :=
-  [EBase StStart; ESFrame false 10 [] [] []; EBase (StConnect 0 1200);
-   ESFrame true 16 [SSpawn 1 true [(0, VNat 5)]] [] [(SEM, (999, false, false), 7, Some 1)];
+  [EBase StStart; ESFrame false 10 false [] [] []; EBase (StConnect 0 1200);
+   ESFrame true 16 false [SSpawn 1 true [(0, VNat 5)]] [] [(SEM, (999, false, false), 7, Some 1)];
    EDeliverS2C 0 SEM All false;
    ECFrame 0 [] []].
 Definition c04_script_b : list estep := [EBase (StDeliver 0 true 0 All); ECFrame 0 [] []].
@@ -178,8 +178,8 @@ Qed.
    client simply never got the spawn (the update message is still in flight when the event's tick is
    already applied is impossible here, so we use an entity that was never replicated: 9) *)
 Definition c04_script_c : list estep :=
-  [EBase StStart; ESFrame false 10 [] [] []; EBase (StConnect 0 1200);
-   ESFrame true 16 [SSpawn 1 true [(0, VNat 5)]] [] [(SEM, (999, false, false), 7, Some 9)];
+  [EBase StStart; ESFrame false 10 false [] [] []; EBase (StConnect 0 1200);
+   ESFrame true 16 false [SSpawn 1 true [(0, VNat 5)]] [] [(SEM, (999, false, false), 7, Some 9)];
    EBase (StDeliver 0 true 0 All); EDeliverS2C 0 SEM All false; ECFrame 0 [] []; ECFrame 0 [] []].
 Example C04_unmapped_dropped :
   c04_view (erun (syse_init c04_cfg 1) c04_script_c)
